@@ -800,7 +800,9 @@ class Container:
             ratio = volume_to_transfer / source_container.volume
 
         elif unit == 'g':
-            mass_to_transfer = round(quantity_to_transfer, config.internal_precision)
+            # rounded on the scale amounts are stored on (micrograms when moles are stored as micromoles), not in grams
+            mass_scale = Unit.convert_prefix_to_multiplier(config.moles_storage_unit[:-3])
+            mass_to_transfer = round(quantity_to_transfer / mass_scale, config.internal_precision) * mass_scale
             total_mass = 0
             for substance, amount in source_container.contents.items():
                 source_unit = 'U' if substance.is_enzyme() else config.moles_storage_unit
